@@ -76,6 +76,15 @@ SPECS = [
                   "S() == S0() + 'A<!-- x' + ('' if quoted(val(1), '\\0', '&#0;', None, None) is None "
                   "else piece(quoted(val(1), '\\0', '&#0;', None, None))) + 'y -->B'"],
          raises={'*': {'ensures': ["raised('e1')"]}}, serves=['C06', 'C02']),
+    dict(id='S-Comment-dollar-name',
+         # "every other character, including lone '$' ... is left unchanged": in a comment (and a CDATA
+         # section) only ${...} interpolates -- `$name` is ordinary text there
+         text='A<!-- $x y$z ${e1} --><![CDATA[$w ${e2}]]>B',
+         ensures=["trace('e1', 'e2')",
+                  "S().startswith(S0() + 'A<!-- $x y$z ')", "S().endswith(']]>B')",
+                  "' --><![CDATA[$w ' in S()"],
+         raises={'*': {'ensures': ["raised('e1') or raised('e2') or ext_count() > 0 or translate_calls() > 0"]}},
+         serves=['C06']),
     dict(id='S-OnError-dict-attributes',
          text='A<div class="c" tal:on-error="e11" tal:attributes="e9">%s</div>B' % H1,
          static_only=True,   # the emitted dict-attribute loop is outside the executor's reach
